@@ -243,6 +243,7 @@ package service
 //@   property C20
 //@   requires [singletons!init] MinerManagerImpl != nil
 //@   ensures result != nil ==> fresh(result) && Z(result.Stake) == @select(ghost(mstake), old(bytes(minerId))) && bytes(result.Id) == old(bytes(minerId))
+//@   ensures [both] (result != nil) == (@select(@select(ghost(mrec), Z(common.MinerTypeProposer)), old(bytes(minerId))) || @select(@select(ghost(mrec), Z(common.MinerTypeValidator)), old(bytes(minerId))))
 //@   modifies nothing
 
 // Scheduling refunds (C20): a credit already scheduled for a payout height and an account is never lowered by
@@ -385,16 +386,20 @@ package service
 //@   ensures result != nil && fresh(result) && big(result) == stakeUnits(arg0)
 //@   modifies nothing
 
+// mrec[t][id]: the registry of miner type t holds a record under id (a miner id names one miner, whatever its type).
+//@ ghost mrec (Array Int (Array Bytes Bool))
 //@ func MinerManager.GetMinerById
 //@   option trusted
 //@   ensures result != nil ==> fresh(result) && Z(result.Stake) == @select(ghost(mstake), old(bytes(id))) && bytes(result.Id) == old(bytes(id))
+//@   ensures [found] (result != nil) == @select(@select(ghost(mrec), Z(kind)), old(bytes(id)))
 //@   modifies nothing
 
 //@ func MinerManager.UpdateMiner
 //@   option trusted
 //@   requires miner != nil
 //@   ensures ghost(mstake) == @store(old(ghost(mstake)), bytes(miner.Id), Z(miner.Stake))
-//@   modifies ghost(mstake), ghost(stver)
+//@   ensures ghost(mrec) == @store(old(ghost(mrec)), Z(miner.Type), @store(@select(old(ghost(mrec)), Z(miner.Type)), bytes(miner.Id), true))
+//@   modifies ghost(mstake), ghost(mrec), ghost(stver)
 
 //@ func MinerManager.AddStake
 //@   property C20
@@ -423,6 +428,7 @@ package service
 //@   ensures [type]     result0 ==> miner.Type == common.MinerTypeValidator || miner.Type == common.MinerTypeProposer
 //@   ensures [minimum]  result0 ==> (miner.Type == common.MinerTypeValidator ==> miner.Stake >= common.ValidatorStake) && (miner.Type == common.MinerTypeProposer ==> miner.Stake >= common.ProposerStake)
 //@   ensures [oneminer] result0 ==> noMatch(common.MinerTypeValidator, seqLen(regSeq(common.MinerTypeValidator)), old(bytes(miner.Account))) && noMatch(common.MinerTypeProposer, seqLen(regSeq(common.MinerTypeProposer)), old(bytes(miner.Account)))
+//@   ensures [newid]    result0 ==> !old(@select(@select(ghost(mrec), Z(common.MinerTypeProposer)), bytes(miner.Id))) && !old(@select(@select(ghost(mrec), Z(common.MinerTypeValidator)), bytes(miner.Id)))
 //@   ensures [stored]   result0 ==> @select(ghost(mstake), bytes(miner.Id)) == miner.Stake
 //@   ensures [paid]     result0 ==> balOf(addr) == old(balOf(addr)) - stakeUnits(real(miner.Stake)) && balOf(addr) >= 0 && forall a common.Address :: a != addr ==> balOf(a) == old(balOf(a))
 
